@@ -16,6 +16,23 @@ THEOREMS = [
     "Remoc.Link.relay_exact",
     "Remoc.Link.relay_complete",
     "Remoc.Link.rinvariant_step",
+    "Remoc.Link.lr_closed_classified",
+    "Remoc.Link.lr_classification_exact",
+    # typed channels with a local queue (M_close)
+    "Remoc.Close.mpsc_queued_suffix_dropped",
+    "Remoc.Close.mpsc_end_drops_exactly_queue",
+    "Remoc.Close.mpsc_queued_suffix_per_sender",
+    "Remoc.Close.mpsc_close_classified",
+    "Remoc.Close.mpsc_first_cause_wins",
+    "Remoc.Close.mpsc_local_first_cause_wins",
+    "Remoc.Close.mpsc_close_observable_at_quiescence",
+    "Remoc.Close.mpsc_close_keeps_transmitted",
+    "Remoc.Close.mpsc_close_keeps_transmitted_before",
+    "Remoc.Close.mpsc_eos_after_all_senders",
+    "Remoc.Close.mpsc_local_queued_suffix",
+    "Remoc.Close.oneshot_closed_classified",
+    "Remoc.Close.oneshot_close_observable_at_quiescence",
+    "Remoc.Close.allinv2_reachable",
 ]
 RULE = ("port level, exact mode: streams of whole sends / try-sends / chunk streams with a receiver close, receiver drop, sender "
         "drop or close-then-drop at every position (also with a chunked message open), the notification delivered to the sender "
@@ -30,6 +47,8 @@ TRUSTED_BASE = [
     "M_link (close / dropReceiver / dropSender labels, the notification FIFO `back`, SendFinish in the data FIFO)",
     "credit returns deferred by a full event queue may be overtaken by a close notification: the driver reorders the model's FIFO accordingly",
     "harness world and lean/Driver/Link.lean",
+    "M_close (RemocModel/Base/Close.lean, CloseStep.lean): one mpsc/oneshot link (n sender clones, local queue, send_impl, port, back channel, recv_impl), the receiver with local clones, other links as environment; values are abstract (id, issuing clone, whether the base send of the value fails on its own); the base channel underneath is the FIFO `wire` (justified by C01/C04); select! is modelled without its bias (more schedules than the code has); after a connection failure frames in flight may still be taken; a receiver forwarded onwards a second time appears only as the environment label rNotifyErr; reserve()/Permit, try_send of mpsc and blocked local sends are not modelled",
+    "lean/RemocModel/Base/CloseReplay.lean + lean/Driver/Base.lean: reconstruction of a link's schedule from the observations (number of Ok handles = number of values transmitted before send_impl learnt of the event)",
     "the relay model forwards whole messages (`relayStart` = Sender::send of a received message); chmux::forward relays large messages chunk by chunk and forwards port requests by opening new ports: those two paths are tied to the code by the link-forward scripts (predicates) and the C05 wiring harness only",
 ]
 ASSUMPTIONS = ["single-threaded paused runtime; override_graceful_close is not modelled"]
@@ -40,8 +59,26 @@ LEVEL_TEXT = ("Lean 4 theorems over M_link for every schedule with close/drop at
               "(chmux::forward at message granularity, composed of two M_link instances): what the forwarder completed downstream is a "
               "prefix of what it received, the destination obtains a prefix of the origin's completed sends and all of them at quiescence. Tied to the code by exact "
               "replay of close/drop scenarios on the model and classification/end-of-stream predicates on the real runs.")
-LEVEL_NOTE = ("Typed channels are covered by correspondence runs only (no theorems); 'eventually observable' assumes a healthy "
-              "transport and scheduler fairness.")
+LEVEL_TEXT += (" Queued typed channels (rch::mpsc incl. several sender clones local and remote, rch::oneshot) have their own LTS "
+               "M_close; for every schedule: the values accepted on a link are the resolved ones, the one in transmission and the "
+               "queued ones in this order, resolved results never show Dropped before Ok/send error, exactly the transmitted ones "
+               "resolve Ok, nothing is dropped while send_impl runs and the step that ends it drops exactly the queue "
+               "(mpsc_queued_suffix_dropped, mpsc_end_drops_exactly_queue, per clone: mpsc_queued_suffix_per_sender); closed_reason() "
+               "of every clone is Closed only after close(), Dropped only after the receiver was dropped, Failed only after a "
+               "connection / forwarding / transmission failure, exact for local clones (mpsc_close_classified), never changes once "
+               "send_impl ended (mpsc_first_cause_wins) and holds in every quiescent state after the event "
+               "(mpsc_close_observable_at_quiescence); the receiver obtains a prefix of the transmitted values and all of them before "
+               "a clean end-of-stream, which comes only after every sender reference is gone or closed "
+               "(mpsc_close_keeps_transmitted[_before], mpsc_eos_after_all_senders); oneshot: at most one value, same classification, "
+               "handle Ok iff transmitted (oneshot_closed_classified). rch::lr and rch::base have no queue: their statements are the "
+               "M_link theorems (close_classified read through lrReason; lr_classification_exact: the reason is Closed only after close(), Dropped only after a drop without close, and exactly what the receiving side did first once the back direction is drained).")
+LEVEL_NOTE = ("Typed channels: mpsc/oneshot by theorems over M_close tied to the code by predicates on real runs and a per-link replay "
+              "whose schedule is reconstructed from the observations (not a step-by-step trace of send_impl/recv_impl); base, lr, "
+              "bin by correspondence runs and the M_link theorems. Known model/code subtleties stated in the theorems rather than "
+              "hidden: an item-specific send failure makes closed_reason() Failed and lets the link end (F10); a receiver that is "
+              "closed and then dropped while recv_impl is blocked behind a full queue is reported as Dropped; the error returned "
+              "by send() on a local clone after the receiver was dropped is SendError::Closed. 'Eventually observable' assumes a "
+              "healthy transport and scheduler fairness.")
 TECHNIQUE = "Lean 4 invariant proofs over an LTS model + exact trace replay and close/drop predicates against the real crate"
 DESIGN_REF = "DESIGN.md section 5, C11"
 
